@@ -729,7 +729,7 @@ impl ElementRaw {
                 })?;
                 if src_parent.downgrade() == self_weak {
                     // move new_element to a different position within the current element
-                    self.move_element_position(move_element, position)
+                    self.move_element_position(move_element, position, end_pos)
                 } else {
                     // move the element within the same model
                     self.move_element_local(self_weak, move_element, position, model, version)
@@ -761,7 +761,12 @@ impl ElementRaw {
     }
 
     /// move a sub element within the current element to a different position
-    fn move_element_position(&mut self, move_element: &Element, position: usize) -> Result<Element, AutosarDataError> {
+    fn move_element_position(
+        &mut self,
+        move_element: &Element,
+        position: usize,
+        end_pos: usize,
+    ) -> Result<Element, AutosarDataError> {
         // need to check self.content.len() here, because find_element_insert_pos() will allow values up to len()+1
         // that's correct when adding elements to self.content, but not strict enough here
         if position < self.content.len() {
@@ -777,6 +782,12 @@ impl ElementRaw {
                 })
                 .unwrap();
 
+            if current_position < position && position >= end_pos {
+                // end_pos is an insert position that was calculated while move_element still occupies its current
+                // place; moving it towards the end shifts the following elements down by one, so it can only go
+                // to end_pos - 1. Otherwise it would end up behind an element that must come after it.
+                return Err(AutosarDataError::InvalidPosition);
+            }
             if current_position < position {
                 // the first element in the subslice is moved to the last position by rotate_left
                 self.content[current_position..=position].rotate_left(1);
